@@ -15,7 +15,7 @@ pub static DEF: PropDef = PropDef {
     rule: "cases: a generated pool of inputs (valid and invalid streams, files with and without embedded streams) and \
 generated call histories over it. (1) history independence: a sequence of ~40 calls of expand_zlib_chunks / \
 recreated_zlib_chunks / decompress_deflate_stream(verify in {false,true}) / recompress_deflate_stream / compress_zstd / decompress_zstd, each result \
-digest compared with the first-seen result for that (function, input); (2) concurrency: 2..16 threads released by a \
+digest compared with the first-seen result for that (function, input); input slices are passed at varying addresses modulo 8; (2) concurrency: 2..16 threads released by a \
 barrier run generated per-thread sequences over the shared (Arc) pool, every result compared with the sequential model; \
 (4) soak: three streams through recompress 70 000 times each (interleaved, plus decompress(verify=true) every 16th round) per worker process, every result equal to the first; (3) cross-process: a child process recomputes all digests of the pool (fresh address space, fresh RandomState) and must \
 agree. Non-trivial = a history in which an accepted input is evaluated at least twice with different predecessors or on \
@@ -80,24 +80,41 @@ fn derive(pool: &Pool) -> Derived {
     }
 }
 
+thread_local! {
+    /// byte offset (0..7) at which the next call's input slice starts inside a scratch buffer:
+    /// the result must not depend on where the caller's bytes live in memory
+    static ALIGN: std::cell::Cell<usize> = std::cell::Cell::new(0);
+}
+
+/// copy `data` to an address that is `ALIGN` bytes past an 8-byte boundary
+fn realigned<R>(data: &[u8], f: impl FnOnce(&[u8]) -> R) -> R {
+    let a = ALIGN.with(|c| c.get()) % 8;
+    if a == 0 || data.len() > (4 << 20) {
+        return f(data);
+    }
+    let mut buf: Vec<u64> = vec![0u64; (data.len() + a) / 8 + 2];
+    let bytes: &mut [u8] = unsafe { std::slice::from_raw_parts_mut(buf.as_mut_ptr() as *mut u8, buf.len() * 8) };
+    bytes[a..a + data.len()].copy_from_slice(data);
+    f(&bytes[a..a + data.len()])
+}
+
 fn run_op(pool: &Pool, der: &Derived, op: Op) -> String {
     let (kind, idx) = (op.0, op.1 as usize);
     match kind {
-        0 => digest_split(lib_split(&pool.streams[idx % pool.streams.len()], false)),
-        1 => digest_split(lib_split(&pool.streams[idx % pool.streams.len()], true)),
+        0 => realigned(&pool.streams[idx % pool.streams.len()], |s| digest_split(lib_split(s, false))),
+        1 => realigned(&pool.streams[idx % pool.streams.len()], |s| digest_split(lib_split(s, true))),
         2 => match &der.splits[idx % pool.streams.len()] {
             Some(s) => digest_bytes(lib_recompress(&s.plain, &s.corr)),
             None => "n/a".into(),
         },
-        3 => digest_bytes(lib_expand(&pool.files[idx % pool.files.len()])),
+        3 => realigned(&pool.files[idx % pool.files.len()], |f| digest_bytes(lib_expand(f))),
         4 => match &der.containers[idx % pool.files.len()] {
             Some(e) => digest_bytes(lib_recreate(e)),
             None => "n/a".into(),
         },
-        5 => {
-            let f = &pool.files[idx % pool.files.len()];
+        5 => realigned(&pool.files[idx % pool.files.len()], |f| {
             digest_bytes(guard(|| preflate_rs::compress_zstd(f, 0).map_err(|e| err_info(&e))))
-        }
+        }),
         _ => {
             let f = &pool.files[idx % pool.files.len()];
             digest_bytes(guard(|| {
@@ -197,9 +214,11 @@ pub fn check(pool: &Pool, plan: &Plan, ctx: &mut Ctx) -> Result<(), Failure> {
     let mut seen = std::collections::BTreeMap::new();
     let mut nontrivial = false;
     let mut prev: Option<Op> = None;
-    for &raw in &plan.history {
+    for (hi, &raw) in plan.history.iter().enumerate() {
         let op = norm(raw);
+        ALIGN.with(|c| c.set((hi * 3 + raw.1 as usize) % 8));
         let got = run_op(pool, &der, op);
+        ALIGN.with(|c| c.set(0));
         let want = &model[&op];
         if &got != want {
             return Err(mismatch("history-dependence", op, want, &got, &format!("a later call (after {:?})", prev)));
@@ -227,7 +246,15 @@ pub fn check(pool: &Pool, plan: &Plan, ctx: &mut Ctx) -> Result<(), Failure> {
             let seq: Vec<Op> = seq.iter().map(|&o| norm(o)).collect();
             handles.push(std::thread::spawn(move || {
                 b.wait();
-                seq.iter().map(|&op| (op, run_op(&p, &d, op))).collect::<Vec<_>>()
+                seq.iter()
+                    .enumerate()
+                    .map(|(i, &op)| {
+                        ALIGN.with(|c| c.set((i * 5 + op.1 as usize + 1) % 8));
+                        let r = run_op(&p, &d, op);
+                        ALIGN.with(|c| c.set(0));
+                        (op, r)
+                    })
+                    .collect::<Vec<_>>()
             }));
         }
         let mut per_op_threads = std::collections::BTreeMap::new();
